@@ -359,6 +359,23 @@ where StandardNormal: Distribution<F>, Exp1: Distribution<F>, Open01: Distributi
             });
             push("SkewNormal", vec![loc, sc, al], got, ra.words(), refv, rb.words(), &tag, out);
         }
+        // LogNormal::from_mean_cv(mean, cv): the documented relation is sigma^2 = ln(1 + cv^2), exp(mu) = mean / sqrt(1 + cv^2); the sample
+        // is exp(mu + sigma z) with z the standard normal deviate of the same stream.  Reference in f64 with ln_1p (small cv included).
+        for (mean, cv) in [(f(1.0), f(1.0)), (f(10.0), f(0.25)), (f(0.5), f(3.0)), (f(1000.0), f(0.001)), (f(2.0), f(1e-4)), (f(7.0), f(1e-6)), (f(1.0), f(1e-9)), (f(0.001), f(0.03125))] {
+            let Ok(d) = LogNormal::from_mean_cv(mean, cv) else { continue };
+            let (mut ra, mut rb) = (rng0.clone(), rng0.clone());
+            let got = guarded(|| d.sample(&mut ra));
+            let refv = guarded(|| {
+                let z: F = StandardNormal.sample(&mut rb);
+                let (m64, c64) = (mean.f64v(), cv.f64v());
+                let s2 = (c64 * c64).ln_1p();
+                F::of((m64.ln() - 0.5 * s2 + s2.sqrt() * z.f64v()).exp())
+            });
+            // (each of mu, sigma z and their sum is rounded to half an ulp of an exponent of size |ln x|, i.e. |ln x| / 2 ulps of x: judged for |ln x| <= 16)
+            if refv.as_ref().map(|r| r.is_finite() && *r > F::zero() && r.f64v().ln().abs() <= 16.0).unwrap_or(true) {
+                push("LogNormal(from_mean_cv)", vec![mean, cv], got, ra.words(), refv, rb.words(), &tag, out);
+            }
+        }
         // InverseGaussian(mu, lambda), Michael-Schucany-Haas as documented: v ~ N(0,1), y = mu v^2,
         // x = mu + mu/(2 lambda) (y - sqrt(4 lambda y + y^2)); x with probability mu / (mu + x), else mu^2 / x
         for (mu, l) in [(f(1.0), f(1.0)), (f(0.5), f(3.0)), (f(2.0), f(0.25)), (f(8.0), f(8.0)), (f(0.125), f(1.0)), (f(1000.0), f(0.001)), (f(30.0), f(0.0625)), (f(0.001), f(1000.0))] {
